@@ -37,7 +37,7 @@ META = {
 
 def shards(tier):
     if tier == "quick":
-        return [{"label": "inputs%d" % i, "n": 400} for i in range(14)]
+        return [{"label": "inputs%d" % i, "n": 1300} for i in range(14)]
     return [{"label": "inputs%d" % i, "n": 40000} for i in range(16)]
 
 
